@@ -26,13 +26,14 @@ def log_call(func):
     @functools.wraps(func)
     def inner_func(*args, **kwargs):
         try:
-            caller_frame_record = inspect.stack()[1]
-            frame = caller_frame_record[0]
-            info = inspect.getframeinfo(frame)
-            logger.debug(f"{info.filename}:{info.function}:{info.lineno}:{func.__name__}({args=},{kwargs=})")
+            if logger.isEnabledFor(logging.DEBUG):
+                # only the caller's frame is needed: inspect.stack() would collect (and read the source of) every frame
+                info = inspect.getframeinfo(inspect.currentframe().f_back)
+                logger.debug(f"{info.filename}:{info.function}:{info.lineno}:{func.__name__}({args=},{kwargs=})")
             return func(*args, **kwargs)
         except Exception:
-            logger.debug(f"Unable to parse data: {args=},{kwargs=}")
+            if logger.isEnabledFor(logging.DEBUG):
+                logger.debug(f"Unable to parse data: {args=},{kwargs=}")
             raise
 
     return inner_func
